@@ -709,6 +709,20 @@ func c12Step(x *engine.Ctx, n *c12Node, opIdx int, allowAdd bool, replay *c12Cas
 			}
 		}
 	}
+	// the same binding on a directory whose artifact files are kept elsewhere and linked into place
+	if (x.Replay || c12RunCount%c12CLIEvery == c12CLIEvery/2) && n.s.W.ClockMode == simfs.TickPerWrite {
+		cs := n.s.clone()
+		cres, cerr := drive.RunCLILinkedArtifacts(cs.W, dbStrat(op.Strat), "y\n")
+		if cerr == nil {
+			x.TraceValidated(1)
+			x.Info("binary runs on linked artifacts", 1)
+			if cres.Exit != 0 {
+				x.ViolationCase("C12/cli-binding/linked-artifacts/exit-status", fmt.Sprintf("library run succeeded, binary exit %d on the same directory with linked artifact files: %s\n  history: %s", cres.Exit, short(cres.Stdout, 300), strings.Join(child.names, " ; ")), &rp)
+			} else if canonKeyOpt(cs, false) != canonKeyOpt(ns, false) {
+				x.ViolationCase("C12/cli-binding/linked-artifacts/state-differs", fmt.Sprintf("binary run on linked artifact files and library run lead to different abstract states\n  history: %s\n  lib: %s\n  cli: %s", strings.Join(child.names, " ; "), short(canonKeyOpt(ns, false), 1500), short(canonKeyOpt(cs, false), 1500)), &rp)
+			}
+		}
+	}
 	if op.Strat == 9 {
 		x.Outcome("default run ok")
 		c12Oracle(x, ns, before, res, t0, t1, child.names, &rp)
@@ -816,7 +830,7 @@ func init() {
 	register(&engine.Check{
 		ID:          "C12",
 		Level:       "model_checking",
-		Rule:        "breadth-first search over operation histories from 2 (quick) / 3 (thorough) initial worlds (chain of 3 with a profile on the leaf; root with two subs, one under an explicit alias in a sub-directory and one in a dotted sub-directory; 5 entities) x 2 clock modes. Operations per entity: edit subject / extensions / validity (3 shapes incl. until-without-from), switch issuer to another valid issuer, attach/detach profile, touch config, delete artifact, truncate after the hash line, strip key block, cut inside the certificate block, replace by a foreign certificate+key without hash line, remove entity (leaves), add entity; per profile: edit extension content, edit validity (none -> 4y -> 6y -> from+4y -> none); runs: default, -a, -o only, -e only, -m only, -c only. All histories up to depth 3 (quick) / 4 (thorough; and depth 5 over the configuration-edit and run operations only, on the 3-chain), deduplicated per shard on the canonical state key (normalised config ASTs, artifacts abstracted to hash line + certificate shape with keys as indices and serial/signature dropped, mtimes as rank order); shards = first operation. Oracle: a default-flag run never fails (all configurations of the alphabet are valid); after every successful default-flag run: every entity complete; every hash-carrying certificate equals the reference translation of its current effective configuration AND the shape of the certificate a clean run of gopki produces for the same files, and verifies under its issuer's current certificate; complete hash-less artifacts untouched unless issuer regenerated/newer; one more default run is a no-op. states = union of canonical states over shards, transitions = operations executed on the real code (every explored transition is an implementation trace)",
+		Rule:        "breadth-first search over operation histories from 2 (quick) / 3 (thorough) initial worlds (chain of 3 with a profile on the leaf; root with two subs, one under an explicit alias in a sub-directory and one in a dotted sub-directory; 5 entities) x 2 clock modes. Operations per entity: edit subject / extensions / validity (3 shapes incl. until-without-from), switch issuer to another valid issuer, attach/detach profile, touch config, delete artifact, truncate after the hash line, strip key block, cut inside the certificate block, replace by a foreign certificate+key without hash line, remove entity (leaves), add entity; per profile: edit extension content, edit validity (none -> 4y -> 6y -> from+4y -> none); runs: default, -a, -o only, -e only, -m only, -c only. All histories up to depth 3 (quick) / 4 (thorough; and depth 5 over the configuration-edit and run operations only, on the 3-chain), deduplicated per shard on the canonical state key (normalised config ASTs, artifacts abstracted to hash line + certificate shape with keys as indices and serial/signature dropped, mtimes as rank order); shards = first operation. Oracle: a default-flag run never fails (all configurations of the alphabet are valid); after every successful default-flag run: every entity complete; every hash-carrying certificate equals the reference translation of its current effective configuration AND the shape of the certificate a clean run of gopki produces for the same files, and verifies under its issuer's current certificate; complete hash-less artifacts untouched unless issuer regenerated/newer; one more default run is a no-op. states = union of canonical states over shards, transitions = operations executed on the real code (every explored transition is an implementation trace); every 40th successful run transition per worker is repeated on the built binary in a native directory, and another every 40th on a native directory whose artifact files are kept in a store directory and linked into place (links older than every file): the directory the binary leaves must abstract to the same canonical state",
 		Bound:       map[string]string{"depth": "quick 3, thorough 4 (5-entity world 3; config-edit+run alphabet 5)", "entities": "3 (5 in thorough)"},
 		Assumptions: []string{"nothing is demanded after a run that fails (dangling issuer etc.: C18)", "key type of re-used keys versus a clean run is not compared", "crashes are counted and left to C20"},
 		Budget:      budgets(quickBudget, 50*time.Minute),
